@@ -69,7 +69,7 @@ def verdict(fn):
         return "refused", e
     except X.MarkingNotFoundError:
         return "accepted", None          # the selector passed validation; there is simply nothing to remove
-    except (X.TypeNotVersionableError, X.ObjectNotVersionableError):
+    except (X.TypeNotVersionableError, X.ObjectNotVersionableError, X.RevokeError):
         return "no-verdict", None
     except X.InvalidValueError as e:
         if "selector" in str(e).lower() or "granular_markings" in str(e):
@@ -117,7 +117,11 @@ def run_instance(case, part):
             break
     if wrapped is None:
         raise RuntimeError("generator no longer produces %s %s %s" % (version, key, label))
-    obj = stix2.parse(copy.deepcopy(wrapped), allow_custom=False)
+    try:
+        obj = stix2.parse(copy.deepcopy(wrapped), allow_custom=False)
+    except harness.lib_errors():
+        part.outcome("base-refused-by-library")      # acceptance of valid bases is C03's business (known finding there), not a selector verdict
+        return
     dform = harness.view(obj, defaults=False)
     sp = model.spec(version)
     tkey = sp.key_for_type(dform["type"])
